@@ -1,6 +1,8 @@
 package core
 
 import (
+	"fmt"
+	"os"
 	"sort"
 	"strings"
 
@@ -358,6 +360,22 @@ func (w *World) Locks(skip func(Edge) bool) *LockWorld {
 			break
 		}
 	}
+	if dbg := os.Getenv("DSCHECK_DEBUG_LOCKS"); dbg != "" {
+		for _, f := range w.RepoFns {
+			if FuncKey(f) != dbg {
+				continue
+			}
+			fmt.Printf("entry-held of %s: %v\n", dbg, held[f])
+			for _, e := range cg.In[f] {
+				fmt.Printf("  in-edge %s from %s held-before=%v caller-entry=%v\n", e.Kind, FuncKey(e.Caller), func() []Held {
+					if s, ok := e.Site.(ssa.CallInstruction); ok && s != nil {
+						return lw.Funcs[e.Caller].HeldBefore(s)
+					}
+					return nil
+				}(), held[e.Caller])
+			}
+		}
+	}
 	for f, m := range held {
 		for _, v := range m {
 			lw.EntryHeld[f] = append(lw.EntryHeld[f], v)
@@ -498,7 +516,7 @@ func (lw *LockWorld) LockOrderEdges() map[string][]string {
 	}
 	for _, f := range lw.W.RepoFns {
 		fl := lw.Funcs[f]
-		for _, c := range Calls(f) {
+		for _, c := range OwnCalls(f) {
 			if _, isGo := c.(*ssa.Go); isGo {
 				continue
 			}
